@@ -473,7 +473,7 @@ where
     fn clear_chromatic_frame(&mut self, spi: &mut SPI) -> Result<(), SPI::Error> {
         match self.background_color {
             TriColor::White => {
-                self.command(spi, Command::WriteRam)?;
+                self.command(spi, Command::WriteRamRed)?;
                 self.interface.data_x_times(
                     spi,
                     0x00,
@@ -481,7 +481,7 @@ where
                 )?;
             }
             TriColor::Chromatic => {
-                self.command(spi, Command::WriteRam)?;
+                self.command(spi, Command::WriteRamRed)?;
                 self.interface.data_x_times(
                     spi,
                     0xFF,
@@ -489,7 +489,7 @@ where
                 )?;
             }
             TriColor::Black => {
-                self.command(spi, Command::WriteRam)?;
+                self.command(spi, Command::WriteRamRed)?;
                 self.interface.data_x_times(
                     spi,
                     0x00,
